@@ -314,3 +314,5 @@ def run(ctx: Context) -> None:
     ctx.isolate(r4_loaded_and_fitting)
     ctx.isolate(r5_on_time)
     ctx.isolate(r6_admission)
+    from . import c04
+    ctx.isolate(c04.r4_r5_copies, rule4="C15.R4c", rule5="C15.R4d")
